@@ -30,7 +30,7 @@ fn rng_bit(t: &str) -> bool { t.len() % 2 == 0 }
 pub fn run(run: &mut Run) {
     run.rule = "random worlds without path-rewrite plugins (random lexicon incl. homographs, overlapping words, negative and \
 i16-extreme costs, random connection matrix, user dictionaries, every OOV provider mix) x random texts x history (new tokenizer, or one whose lattice held 1-4 longer/shorter texts before); the real lattice is dumped \
-through the verif hook; non-trivial = at least 2 alternative complete paths (some row has >= 2 connected candidates); distinct by line".into();
+through the verif hook before (complete previous state: all allocated rows, size, eos) and after the text; the model executes reset on the previous state and inserts the candidates a NEW tokenizer finds; non-trivial = at least 2 alternative complete paths (some row has >= 2 connected candidates); distinct by line".into();
     let n = run.opts.count;
     let mut cur_world: Option<(usize, Result<World, String>)> = None;
     for idx in 0..n {
@@ -67,10 +67,16 @@ through the verif hook; non-trivial = at least 2 alternative complete paths (som
                 tok.reset().push_str(wt);
                 if tok.do_tokenize().is_ok() && rng_bit(wt) { let _ = wl.collect_results(&mut tok); }
             }
+            // the complete state of the lattice BEFORE this text (all allocated rows, also those past `size`)
+            let prev = {
+                let lat = tok.verif_lattice();
+                (lat.verif_size(), lat.verif_eos(), lat.verif_row_lens(), lat.verif_rows())
+            };
             tok.reset().push_str(&text);
             let r = tok.do_tokenize();
             let lat = tok.verif_lattice();
             let size = lat.verif_size();
+            let lens = lat.verif_row_lens();
             let rows = lat.verif_rows();
             let eos = lat.verif_eos();
             let nchars = tok.verif_input().verif_tables().mod_chars.len();
@@ -84,25 +90,51 @@ through the verif hook; non-trivial = at least 2 alternative complete paths (som
                     }
                 }
             }
-            (outcome, size, rows, eos, nchars, morph_costs)
+            (outcome, size, rows, eos, nchars, morph_costs, prev, lens)
         });
-        let (outcome, size, rows, eos, nchars, morph_costs) = match res {
-            Err(p) => { run.bump("outcome:panic"); run.bump(&format!("panic:{}", p.chars().take(50).collect::<String>())); continue; }
+        let (outcome, size, rows, eos, nchars, morph_costs, prev, lens) = match res {
+            Err(p) => {
+                run.bump("outcome:panic"); run.bump(&format!("panic:{}", p.chars().take(50).collect::<String>()));
+                // a panic that only a RECYCLED lattice produces is a failure of this property (a panic that a new
+                // tokenizer produces as well is C03's subject)
+                if !warm.is_empty() {
+                    let fresh_ok = catch(|| { let mut t = StatefulTokenizer::new(dic, Mode::C); t.reset().push_str(&text); let _ = t.do_tokenize(); }).is_ok();
+                    if fresh_ok {
+                        run.fail(idx, "c02:recycled-panic", &format!("panic {:?} on a tokenizer that analysed {:?} before, none on a new tokenizer | text={:?} world={}", p, warm, text, w.desc.join(" ")));
+                    }
+                }
+                continue;
+            }
             Ok(x) => x,
         };
         run.bump(&format!("outcome:{}", outcome));
         if nchars == 0 { run.bump("empty-normalised-text"); continue; }
         if outcome != "ok" && outcome != "Disconnect" { continue; }
+        // the candidates of THIS text, independent of the history: the lattice of a new tokenizer
+        let fresh_rows = if warm.is_empty() { Some((size, rows.clone())) } else {
+            catch(|| {
+                let mut t = StatefulTokenizer::new(dic, Mode::C);
+                t.reset().push_str(&text);
+                let _ = t.do_tokenize();
+                (t.verif_lattice().verif_size(), t.verif_lattice().verif_rows())
+            }).ok()
+        };
+        let (fsize, frows) = match fresh_rows { Some(x) => x, None => { run.bump("fresh-panic"); continue; } };
         // flatten the valid rows
-        let mut nodes: Vec<N> = vec![];
-        for (e, row) in rows.iter().enumerate().take(size) {
-            for (i, x) in row.iter().enumerate() {
-                nodes.push(N { b: x.0, e: x.1, l: x.2 as usize, r: x.3 as usize, c: x.4 as i64, wid: x.5, total: x.6, pe: x.7, pi: x.8, row_idx: i });
-                let _ = e;
+        let flat = |rows: &Vec<Vec<(usize, usize, u16, u16, i16, u32, i32, u16, u16)>>, size: usize| -> Vec<N> {
+            let mut nodes: Vec<N> = vec![];
+            for row in rows.iter().take(size) {
+                for (i, x) in row.iter().enumerate() {
+                    nodes.push(N { b: x.0, e: x.1, l: x.2 as usize, r: x.3 as usize, c: x.4 as i64, wid: x.5, total: x.6, pe: x.7, pi: x.8, row_idx: i });
+                }
             }
-        }
-        // insertion-compatible order: by begin; within a begin keep (end,row index)
-        nodes.sort_by_key(|x| (x.b, x.e, x.row_idx));
+            // insertion-compatible order: by begin; within a begin keep (end,row index)
+            nodes.sort_by_key(|x| (x.b, x.e, x.row_idx));
+            nodes
+        };
+        let nodes = flat(&rows, size);
+        // what the model inserts: the candidates found by a NEW tokenizer for this text
+        let cand = flat(&frows, fsize);
         // the connection costs come from the matrix TEXT the dictionary was compiled from (no cost-editing
         // plugin is configured in these worlds), not from the code under test
         let (nl, nr) = (w.matrix.nl, w.matrix.nr);
@@ -110,10 +142,26 @@ through the verif hook; non-trivial = at least 2 alternative complete paths (som
         for b in 0..nr { for a in 0..nl { cells.push(w.matrix.cost(a, b) as i64); } }
         let conn = |a: usize, b: usize| -> i64 { cells[b * nl + a] };
         let full = outcome == "ok" || eos.is_some();
+        let show_total = |t: i32| if t == i32::MAX { "x".to_string() } else { t.to_string() };
+        // the state before this text as the three row vectors of `struct Lattice` (the BOS entry of `ends[0]` is not
+        // part of `ends_full`/`indices`; its presence is read off the row lengths)
+        let (psize, peos, plens, prows) = &prev;
+        let rows3 = |v: Vec<String>| if v.is_empty() { "-".to_string() } else { v.join("/") };
+        let pe = rows3(prows.iter().enumerate().map(|(e, row)| {
+            let mut cellsv: Vec<String> = vec![];
+            if e == 0 && plens.get(0).map_or(false, |l| l.0 == l.1 + 1) { cellsv.push("0:0".to_string()); }
+            for x in row { cellsv.push(format!("{}:{}", x.3, show_total(x.6))); }
+            cellsv.join(";")
+        }).collect());
+        let pf = rows3(prows.iter().map(|row| row.iter().map(|x| format!("{}:{}:{}:{}:{}", x.0, x.1, x.2, x.3, x.4)).collect::<Vec<_>>().join(";")).collect());
+        let pi = rows3(prows.iter().map(|row| row.iter().map(|x| format!("{}:{}", x.7, x.8)).collect::<Vec<_>>().join(";")).collect());
+        run.bump(&format!("previous-state:{}", if prows.is_empty() { "no-rows".to_string() } else if *psize > nchars + 1 { "larger".to_string() } else if *psize < nchars + 1 { "smaller".to_string() } else { "same-size".to_string() }));
+        if prows.len() > nchars + 1 { run.bump("previous-state:more-rows-allocated-than-needed"); }
         let payload = format!(
-            "full={} len={} conn={}:{}:{} nodes={}",
-            if full { 1 } else { 0 }, nchars, nl, nr, join(cells.iter(), ","),
-            nodes.iter().map(|x| format!("{}:{}:{}:{}:{}", x.b, x.e, x.l, x.r, x.c)).collect::<Vec<_>>().join(";")
+            "full={} ok={} len={} conn={}:{}:{} nodes={} ps={} po={} pe={} pf={} pi={}",
+            if full { 1 } else { 0 }, if outcome == "ok" { 1 } else { 0 }, nchars, nl, nr, join(cells.iter(), ","),
+            cand.iter().map(|x| format!("{}:{}:{}:{}:{}", x.b, x.e, x.l, x.r, x.c)).collect::<Vec<_>>().join(";"),
+            psize, peos.map_or("x".to_string(), |e| format!("{}:{}:{}", e.0, e.1, e.2)), pe, pf, pi
         );
         // chosen path through the back-pointers of the implementation
         let mut path_cost: Option<i64> = None;
@@ -135,15 +183,22 @@ through the verif hook; non-trivial = at least 2 alternative complete paths (som
             c += conn(prev_r, 0);
             path_cost = Some(c);
         }
-        let totals_s = nodes.iter().map(|x| if x.total == i32::MAX { "x".to_string() } else { x.total.to_string() }).collect::<Vec<_>>().join(",");
+        // the state after this text: lengths of ALL allocated rows, the valid rows with totals and back-pointers
+        let lens_s = lens.iter().map(|l| format!("{}:{}:{}", l.0, l.1, l.2)).collect::<Vec<_>>().join(",");
+        let rows_s = rows.iter().take(size).map(|row| row.iter().map(|x| format!("{}:{}:{}:{}:{}:{}:{}:{}", x.0, x.1, x.2, x.3, x.4, show_total(x.6), x.7, x.8)).collect::<Vec<_>>().join(";")).collect::<Vec<_>>().join("/");
+        let head = format!("ok size={} lens={} rows={}", size, lens_s, rows_s);
         let ans = if full {
-            // the node list of the returned path pins the tie rule (first minimum in row order) against the model's argmin
-            let path_s = if path_cost.is_some() {
-                path_nodes.iter().map(|x| format!("{}:{}:{}:{}:{}", x.b, x.e, x.l, x.r, x.c)).collect::<Vec<_>>().join(";")
-            } else { "x".to_string() };
-            format!("ok totals={} eos={} path={} nodes={}", totals_s, eos.map_or("x".to_string(), |e| e.2.to_string()), path_cost.map_or("x".to_string(), |c| c.to_string()), path_s)
+            // the node list of the returned path pins the tie rule (first minimum in row order) and the stored totals
+            match eos {
+                // `mc`: what the REAL fill_top_path + Lattice::node + resolve_best_path delivered (mode C, no path rewriting):
+                // the cumulative cost of every morpheme, against the model's walk over the stored back-pointers
+                Some(e) => format!("{} eos={}:{}:{} path={} nodes={} mc={}", head, e.0, e.1, e.2, path_cost.map_or("x".to_string(), |c| c.to_string()),
+                    path_nodes.iter().map(|x| format!("{}:{}:{}:{}:{}:{}", x.b, x.e, x.l, x.r, x.c, show_total(x.total))).collect::<Vec<_>>().join(";"),
+                    if outcome == "ok" { morph_costs.iter().map(|m| show_total(m.0)).collect::<Vec<_>>().join(",") } else { "x".to_string() }),
+                None => format!("{} eos=x path=x nodes=x mc=x", head),
+            }
         } else {
-            format!("ok totals={}", totals_s)
+            head
         };
         // ---- independent oracle: DP over the dumped candidates + brute force on small lattices ----
         let mut best: Vec<Option<i64>> = vec![None; nodes.len()];
@@ -178,7 +233,28 @@ through the verif hook; non-trivial = at least 2 alternative complete paths (som
         if multi { run.bump("rows-with-alternatives"); }
         run.case(idx, "lattice", &payload, &ans, multi && alternatives >= 1);
         let mut fail: Option<(String, String)> = None;
+        // the lattice that is searched is the lattice of THIS text: row 0 starts with the sentence-start entry, the three
+        // row vectors agree in length, and the valid rows hold exactly the candidates a new tokenizer finds
+        if size != nchars + 1 {
+            fail = Some(("size".into(), format!("lattice size {} for a text of {} characters", size, nchars)));
+        } else if lens.len() < size {
+            fail = Some(("alloc".into(), format!("{} rows allocated, {} needed", lens.len(), size)));
+        } else if lens[0].0 != lens[0].1 + 1 {
+            fail = Some(("bos".into(), format!("row 0 holds {} cost entries for {} nodes: no sentence-start entry", lens[0].0, lens[0].1)));
+        } else if let Some((e, l)) = lens.iter().enumerate().take(size).find(|(e, l)| l.1 != l.2 || l.0 != l.1 + if *e == 0 { 1 } else { 0 }) {
+            fail = Some(("parallel".into(), format!("row {}: {} cost entries, {} nodes, {} back-pointers", e, l.0, l.1, l.2)));
+        } else {
+            let key = |x: &N| (x.b, x.e, x.l, x.r, x.c, x.wid);
+            let mut a: Vec<_> = nodes.iter().map(key).collect();
+            let mut b: Vec<_> = cand.iter().map(key).collect();
+            a.sort(); b.sort();
+            if a != b {
+                let extra: Vec<_> = a.iter().filter(|x| !b.contains(x)).take(3).collect();
+                fail = Some(("stale".into(), format!("the lattice holds {} nodes, a new tokenizer finds {} candidates for this text; e.g. not candidates: {:?}", a.len(), b.len(), extra)));
+            }
+        }
         for (i, nd) in nodes.iter().enumerate() {
+            if fail.is_some() { break; }
             let got = if nd.total == i32::MAX { None } else { Some(nd.total as i64) };
             if got != best[i] {
                 fail = Some(("total".into(), format!("node {}..{} (l={},r={},c={}) stores total {:?}, minimum over chains is {:?}", nd.b, nd.e, nd.l, nd.r, nd.c, got, best[i])));
